@@ -93,7 +93,7 @@ def retrieves(v, r, names, path="$"):
     return "%s: unexpected input %r" % (path, v)
 
 
-def constructed_by(elem, v, r, path="$", depth=0):
+def constructed_by(elem, v, r, path="$", depth=0, doc=None):
     """schema-directed half of the oracle, along the deterministic positions only (typed arrays and object classes, no
     composition, no member that a patternProperties regex also matches): every member is BUILT by the element responsible
     for its position - an object under a class comes back as an instance of it with its declared properties readable as
@@ -109,8 +109,15 @@ def constructed_by(elem, v, r, path="$", depth=0):
         if not isinstance(r, elem):
             return "%s: an object accepted by class %s came back as %s, not as an instance of it" % (path, elem.__name__, type(r).__name__)
         pats = list(getattr(elem, "patternProperties", None) or {}) if isinstance(getattr(elem, "patternProperties", None), dict) else []
-        for name, p in elem.properties.items():
-            src = p.source if p.source is not None else name
+        declared = [(name, p.source if p.source is not None else name) for name, p in elem.properties.items()]
+        if doc is not None and doc["classes"].get(elem.__name__) and not doc["classes"][elem.__name__].get("pyname"):
+            # the names as DECLARED (own and inherited, child wins), not as the live class reports them
+            declared = [(name, ps["source"] if ps.get("source") is not None else name)
+                        for name, ps in dslgen.merged_class(doc, elem.__name__)["props"].items()]
+        for name, src in declared:
+            p = elem.properties.get(name)
+            if p is None:
+                return "%s: class %s does not carry its declared property %r" % (path, elem.__name__, name)
             if src not in v or (name != src and name in v):        # omitted (C05's subject) / K13 collision
                 continue
             try:
@@ -122,7 +129,9 @@ def constructed_by(elem, v, r, path="$", depth=0):
                 attr = getattr(r, name)
             except AttributeError:
                 return "%s: declared property %r is not readable as an attribute" % (path, name)
-            w = constructed_by(p.element, v[src], attr, "%s.%s" % (path, name), depth + 1)
+            if retrieves(v[src], attr, ({}, set())) is not None and not isinstance(v[src], (dict, list)):
+                return "%s: attribute %r (JSON name %r) does not hold the supplied member" % (path, name, src)
+            w = constructed_by(p.element, v[src], attr, "%s.%s" % (path, name), depth + 1, doc)
             if w:
                 return w
         return None
@@ -137,7 +146,7 @@ def constructed_by(elem, v, r, path="$", depth=0):
             else:
                 sub = items if isinstance(items, (Element, ObjectMeta)) else None
             if sub is not None:
-                w = constructed_by(sub, x, y, "%s[%d]" % (path, i), depth + 1)
+                w = constructed_by(sub, x, y, "%s[%d]" % (path, i), depth + 1, doc)
                 if w:
                     return w
         return None
@@ -166,6 +175,20 @@ TEMPLATES = [
 ]
 
 
+TEMPLATES.append(
+    # inheritance: a renamed parent property read through the child, a renamed child property, parent used before child
+    ({"classes": {"Vehicle": {"k": "Obj", "name": "Vehicle", "base": None, "doc": None, "kw": {},
+                              "props": {"class_": {"e": {"k": "String", "kw": {}}, "required": False, "source": "class"},
+                                        "wheels": {"e": {"k": "Number", "kw": {}}, "required": False, "source": None}}},
+                  "Car": {"k": "Obj", "name": "Car", "base": "Vehicle", "doc": None, "kw": {},
+                          "props": {"type_": {"e": {"k": "String", "kw": {}}, "required": False, "source": "type"},
+                                    "doors": {"e": {"k": "Number", "kw": {}}, "required": False, "source": None},
+                                    "owner": {"e": {"k": "Ref", "name": "Vehicle"}, "required": False, "source": None}}}},
+      "order": ["Vehicle", "Car"], "root": {"k": "Array", "items": [{"k": "Ref", "name": "Vehicle"}, {"k": "Ref", "name": "Car"}], "kw": {}}},
+     [[{"class": "a", "wheels": 2}, {"class": "b", "type": "t", "doors": 4, "wheels": 4, "owner": {"class": "o", "wheels": 3}}],
+      [{"class": "a"}, {"class": "c"}], [{}, {"type": "t"}], [{"wheels": 1}, {"doors": 2, "extra": [1]}]]))
+
+
 def run(tier, seed, replay=None):
     from statham.schema.parser import parse_element
     res = Result("C04", tier, seed)
@@ -185,7 +208,7 @@ def run(tier, seed, replay=None):
     def depth(v):
         return 1 + max([depth(x) for x in (v.values() if isinstance(v, dict) else v)] + [0]) if isinstance(v, (dict, list)) else 0
 
-    def judge(root, elems, v, payload):
+    def judge(root, elems, v, payload, doc=None):
         tag, r = quiet_call(root, v)
         stats["values"] += 1
         if tag != "ok":
@@ -208,15 +231,18 @@ def run(tier, seed, replay=None):
                     stats["k13_inputs"] += 1
             res.violation(dict(payload, kind="oracle", value=v, finding=fid, what=why))
             return
-        why = constructed_by(root, v, r)
+        why = constructed_by(root, v, r, doc=doc)
         stats["construct_checked"] = stats.get("construct_checked", 0) + 1
         if why:
             res.violation(dict(payload, kind="oracle", value=v, what=why))
 
-    for doc, vals in items:
+    for di, (doc, vals) in enumerate(items):
         try:
             root, classes = dslgen.build(doc)
-        except BaseException:  # noqa
+        except BaseException as exc:  # noqa
+            if not replay and di < len(TEMPLATES):
+                res.violation({"property": "C04", "doc": doc, "kind": "oracle",
+                               "what": "declaring the template tree raised %s: %s" % (type(exc).__name__, str(exc)[:120])})
             continue
         elems, _ = walk(root)
         for c in classes.values():
@@ -226,7 +252,17 @@ def run(tier, seed, replay=None):
         payload = {"property": "C04", "doc": doc, "values": vals, "replay": "./check C04 --replay <this file>"}
         res.count(json.dumps(doc, sort_keys=True, default=repr), nontrivial=any(isinstance(v, (dict, list)) for v in vals))
         for v in vals:
-            judge(root, elems, v, payload)
+            judge(root, elems, v, payload, doc)
+        # every class on its own, parents before children, on a FRESH build (a class first used after its parent)
+        if doc["order"] and (not replay or True):
+            _, fresh = dslgen.build(doc)
+            chain = sorted(fresh, key=lambda n: len(fresh[n].__mro__))
+            for name in chain:
+                cvals = [gen.gen_value(rng, dslgen.spec_schema(doc, {"k": "Ref", "name": name})) for _ in range(3)]
+                c_elems, _ = walk(fresh[name])
+                stats["class_first_use_calls"] = stats.get("class_first_use_calls", 0) + len(cvals)
+                for v in cvals:
+                    judge(fresh[name], c_elems, v, dict(payload, values=[v], called_class=name), doc)
         try:
             obs, _ = sc.observe_elem(root, vals)
             cases.append(sc.cq_ecase(doc, root, obs))
